@@ -183,6 +183,20 @@ def hostile_groups(rng):
                             ("dupslice", W.slice_packet(rel, 12, ch, mid, 0, 2, fill(1200))),
                             ("dupslice", W.slice_packet(rel, 13, ch, mid, 1, 2, fill(7))),
                             ("dupslice", W.slice_packet(rel, 14, ch, mid, 1, 2, fill(7)))])
+    # one message id of a reliable channel submitted twice with DIFFERENT payload sizes while it is still buffered behind a gap
+    # (an honest resend is byte-identical), in two packets or in one; then the gap is filled so that the application drains:
+    # whatever copy the channel keeps, the memory it accounts for must be the memory it gives back
+    for ch in (1, 2):
+        for mid in (1, 3, 40):
+            for l1, l2 in ((10, 1000), (1000, 10), (0, 1200), (1200, 1)):
+                gap = W.small_reliable(13, ch, [(m, fill(5)) for m in range(0, min(mid, 8))])
+                out.append([("sizemismatch", W.small_reliable(11, ch, [(mid, fill(l1))])),
+                            ("sizemismatch", W.small_reliable(12, ch, [(mid, fill(l2))])), ("sizemismatch", gap)])
+                out.append([("sizemismatch", W.small_reliable(11, ch, [(mid, fill(l1)), (mid, fill(l2))])), ("sizemismatch", gap)])
+                # six buffered ids, each re-sent larger (more stored than the channel budget allows)
+            out.append([("sizemismatch", W.small_reliable(11, ch, [(mid + k, fill(10)) for k in range(6)])),
+                        ("sizemismatch", W.small_reliable(12, ch, [(mid + k, fill(1000)) for k in range(6)])),
+                        ("sizemismatch", W.small_reliable(13, ch, [(m, fill(5)) for m in range(0, min(mid, 8))]))])
     return out
 
 
